@@ -141,7 +141,8 @@ AVerifyDecrypt(k2) ==
 E(id, src, ok) == [id |-> id, src |-> src, ok |-> ok, scheme |-> ""]
 InjSeqs(n) == {s \in UNION {[1..l -> 1..n] : l \in 0..n} : \A i, j \in 1..Len(s) : i # j => s[i] # s[j]}
 ShareSeqs(n) == {[i \in 1..Len(s) |-> E(s[i], s[i], TRUE)] : s \in InjSeqs(n)}
-                \cup {<<E(1, 1, TRUE), E(1, 1, TRUE)>>, <<E(1, 1, TRUE), E(0, 2, TRUE)>>, <<E(1, 1, TRUE), E(2, 2, FALSE)>>}
+                \cup {<<E(1, 1, TRUE), E(1, 1, TRUE)>>, <<E(1, 1, TRUE), E(0, 2, TRUE)>>, <<E(1, 1, TRUE), E(2, 2, FALSE)>>,
+                      <<E(1, 1, TRUE), E(2, 2, TRUE), E(0, 2, FALSE)>>, <<E(0, 1, FALSE), E(1, 1, TRUE), E(2, 2, TRUE)>>}
 AShares(k, m, t, n, es) ==
   /\ phase = "idle"
   /\ LET c == Enc(PkOf(k), m, "b1")
